@@ -192,13 +192,21 @@ Definition sh_put (s : shard) (e : N) (a : oid) (r : mrec) (b : bytes) : perr + 
                                    with the blob removed, see sh_put_state *)
          | inr s2 => inr s2
          end.
-(* state after a failed put: the blob write is undone by blobStor.Delete when the
-   metabase refused; nothing was written when the blob write itself failed *)
+(* state after a failed put: nothing was written when the blob write itself failed;
+   when the metabase refused, the blob write is undone by blobStor.Delete *)
 Definition sh_put_state (s : shard) (e : N) (a : oid) (r : mrec) (b : bytes) : shard :=
   match sh_put s e a r b with
   | inr s' => s'
   | inl err =>
-    if s_ro s || s_fwr s then s else with_blob s (remove a (s_blob s))
+    if s_ro s || s_fwr s then s
+    else
+      (* the metabase refused: the written data is dropped again, unless the metabase
+         already knows the object (Exists with expiration ignored) *)
+      let s1 := with_blob s (set a b (s_blob s)) in
+      match meta_exists s1 0 a with
+      | ExOk true => s1
+      | _ => with_blob s (remove a (s_blob s))
+      end
   end.
 
 (* shard.Delete / deleteObjs for one id *)
